@@ -118,6 +118,8 @@ pub fn queries_for(zone: &str, tab: &Value, r: &mut Rng, cap: usize, thorough: b
         let last_year = if n > 0 { civil(tsec(n - 1).div_euclid(86_400)).0 } else { 1969 };
         let mut ys: Vec<i64> = if thorough { (2038..=2100).collect() } else { vec![2038, 2039, 2040, 2050, 2099, 2100, r.range(2041, 2098), r.range(2101, 2399)] };
         ys.extend([2400, 9999, last_year + 1]);
+        // century years (leap only every fourth of them): a rule's weekday arithmetic meets every alignment of the 1st of its month there
+        ys.extend([2200, 2300, 2500, 2700, 3100, 100 * r.range(22, 99)]);
         if n == 0 { ys.extend([1, 1900, 1970, 2000]); }
         ys.sort(); ys.dedup();
         for (k, y) in ys.into_iter().enumerate() {
